@@ -398,12 +398,7 @@ func (o OrderedCollection) Equals(with Item) bool {
 			}
 			return nil
 		})
-		if w.OrderedItems != nil {
-			if !o.OrderedItems.Equals(w.OrderedItems) {
-				result = false
-				return nil
-			}
-		}
+		// NOTE(marius): the ordered items have been compared above, as the items of the Collection view
 		return nil
 	})
 	if err != nil {
